@@ -3,7 +3,6 @@ package main
 // C07: issued tokens verify; any change to a signed token is detected. Real keys, real tokens.
 
 import (
-	"bytes"
 	"encoding/hex"
 	"encoding/json"
 	"fmt"
@@ -564,7 +563,7 @@ func execUcan(a []string) Result {
 		oracle = "fail:C07-unverified a freshly issued token does not verify against its issuer"
 	} else if !transported || !sameLink {
 		oracle = "fail:C07-unverified the token does not verify (or changes its link) after archive/extract"
-	} else if s.Alter != "none" && altered && (cidChanged || !fieldAlter) && !bytes.Equal(nil, []byte(s.Alter[:0])) {
+	} else if s.Alter != "none" && altered && (cidChanged || !fieldAlter) {
 		oracle = "fail:C07-undetected kind=" + s.Alter + " the altered token still verifies"
 	}
 	return Result{Args: []string{mustJSON(&s)}, Impl: fmt.Sprintf("issued=%s|transported=%s|altered=%s", tf(issued), tf(transported && sameLink), tf(altered)), Oracle: oracle,
